@@ -8,6 +8,7 @@ import (
 
 	"github.com/alttpo/snes/emulator"
 	"github.com/alttpo/snes/emulator/cpu65c816"
+	"github.com/alttpo/snes/emulator/cpualt"
 
 	"verif/internal/mem"
 	"verif/internal/ref"
@@ -735,8 +736,29 @@ func C12(r *vf.Run) {
 					}
 				}
 				var wdmP, wdmA []byte
-				w.rig.prim.OnWDM = func(b byte) { wdmP = append(wdmP, b) }
-				w.rig.alt.OnWDM = func(b byte) { wdmA = append(wdmA, b) }
+				// a handler may take a savestate of its CPU while it runs (a copy of the struct, or InitFrom):
+				// the copy is a CPU like any other - stepped later, it traps on the WDM it was taken at
+				var snapP *cpu65c816.CPU
+				var snapA *cpualt.CPU
+				takeSnap := g.Intn(3) == 0
+				w.rig.prim.OnWDM = func(b byte) {
+					wdmP = append(wdmP, b)
+					if takeSnap && snapP == nil {
+						snapP = new(cpu65c816.CPU)
+						if b&1 == 0 {
+							*snapP = w.rig.prim
+						} else {
+							snapP.InitFrom(&w.rig.prim, w.rig.prim.Bus)
+						}
+					}
+				}
+				w.rig.alt.OnWDM = func(b byte) {
+					wdmA = append(wdmA, b)
+					if takeSnap && snapA == nil {
+						snapA = new(cpualt.CPU)
+						snapA.InitFrom(w.rig.alt) // (a cpualt.CPU holds closures over itself: InitFrom is its way of being copied)
+					}
+				}
 				ma := img.Clone()
 				ma.NoRdSet = true
 				want := map[uint32][]int{}
@@ -776,6 +798,32 @@ func C12(r *vf.Run) {
 				}
 				if len(wantWDM) > 0 {
 					w.cells["onwdm:seen"]++
+				}
+				if snapP != nil && snapA != nil {
+					// step the savestates: each sits on the WDM it was taken at
+					var gotP, gotA []byte
+					snapP.OnWDM = func(b byte) { gotP = append(gotP, b) }
+					snapA.OnWDM = func(b byte) { gotA = append(gotA, b) }
+					snapP.OnPC = nil
+					wantOp := mp.Peek(uint32(snapP.RK)<<16 | uint32(snapP.PC+1))
+					isWDM := mp.Peek(uint32(snapP.RK)<<16|uint32(snapP.PC)) == 0x42
+					save := w.rig.prim
+					w.rig.prim = *snapP
+					rp2 := w.rig.stepPrim(mp)
+					w.rig.prim = save
+					saveA := w.rig.alt
+					w.rig.alt = snapA
+					ra2 := w.rig.stepAlt(ma)
+					w.rig.alt = saveA
+					if isWDM && rp2.pan == nil && ra2.pan == nil {
+						if string(gotP) != string([]byte{wantOp}) {
+							r.Fail("onwdm-on-savestate:cpu65c816", fmt.Sprintf("a copy of the CPU taken inside its OnWDM handler, stepped on the WDM #$%02x it was taken at: its handler received % x", wantOp, gotP), nil)
+						}
+						if string(gotA) != string([]byte{wantOp}) {
+							r.Fail("onwdm-on-savestate:cpualt", fmt.Sprintf("a copy of the CPU taken inside its OnWDM handler, stepped on the WDM #$%02x it was taken at: its handler received % x", wantOp, gotA), nil)
+						}
+						w.cells["onwdm:savestate-taken-inside-handler"]++
+					}
 				}
 				w.rig.prim.OnPC, w.rig.prim.OnWDM, w.rig.alt.OnWDM = nil, nil, nil
 			}
